@@ -66,6 +66,7 @@ def rules(P, R, prefix="C12"):
                     c = a["c"]
                     if c["k"] == "bin" and c["op"] in (">=", "<=", ">", "<"):
                         l, r = (c["l"], c["r"]) if c["op"] in (">=", ">") else (c["r"], c["l"])
+                        r = ctx.origin_node(r)
                         if r["k"] == "mcall" and MCOMM + "::quorum_threshold" in callee_paths(r) and l["k"] == "var":
                             thr = (a, l, r)
                             break
